@@ -1,7 +1,63 @@
-(* Property C11 — search-space enumeration is exact.  Statements only; proofs in Proofs/Geno*.v. *)
-From PG Require Import Common.Tactics Model.Geno Proofs.GenoBasics.
+(* Property C11 — search-space enumeration is exact: every valid DNA once, nothing else.
+   Statements only; proofs in Proofs/Geno*.v.  [all_valid s] is the specification: the compositional,
+   lexicographically ordered list of the decisions that satisfy the constraints of s (arity, index ranges,
+   distinctness, sortedness, conditional sub-spaces).  [finite]: no float / custom point (space_size <> -1);
+   [wf]: what the constructors of the library enforce (k >= 1, at least one candidate, k <= #candidates when distinct). *)
+From Coq Require Import Sorted.
+From PG Require Import Common.Tactics Model.Geno Proofs.GenoBasics Proofs.GenoValid Proofs.GenoSize
+  Proofs.GenoOrder Proofs.GenoNext Proofs.GenoIter Proofs.GenoExamples.
 
-Theorem C11_with_nth : forall A B (f : A -> B) d l n,
-  with_nth f d l n = match nth_error l n with Some x => f x | None => d end.
-Proof. exact with_nth_nth_error. Qed.
-Print Assumptions C11_with_nth.
+(* the set that is enumerated is precisely the set of decisions satisfying the constraints *)
+Theorem C11_valid_iff : forall s d, finite s = true -> (valid s d = true <-> In d (all_valid s)).
+Proof. exact valid_iff. Qed.
+Print Assumptions C11_valid_iff.
+
+(* ... where the constraint of a multi-choice means: distinct => no index twice, sorted => non-decreasing *)
+Theorem C11_constraint_meaning : forall dist srt l,
+  constraint_ok dist srt l = true <-> (dist = true -> NoDup l) /\ (srt = true -> StronglySorted le l).
+Proof. exact constraint_ok_spec. Qed.
+Print Assumptions C11_constraint_meaning.
+
+(* the reported size (the transcribed recurrences of Choices.space_size, all four distinct x sorted modes,
+   and the product of Space.space_size) is the number of valid decisions *)
+Theorem C11_size : forall s, finite s = true -> space_size s = Some (N.of_nat (length (all_valid s))).
+Proof. exact size_exact. Qed.
+Print Assumptions C11_size.
+
+(* strictly increasing, hence pairwise different *)
+Theorem C11_sorted : forall s, StronglySorted slt (all_valid s).
+Proof. exact all_valid_sorted. Qed.
+Print Assumptions C11_sorted.
+
+Theorem C11_pairwise_different : forall s, NoDup (all_valid s).
+Proof. intros s. apply sorted_NoDup. apply all_valid_sorted. Qed.
+Print Assumptions C11_pairwise_different.
+
+(* first_dna is the head of the list *)
+Theorem C11_first : forall s, finite s = true -> wf s = true -> hd_error (all_valid s) = Some (first s).
+Proof. exact first_head. Qed.
+Print Assumptions C11_first.
+
+(* next_dna of a valid DNA is valid and greater *)
+Theorem C11_next_sound : forall s, finite s = true -> wf s = true ->
+  forall d d', valid s d = true -> next s d = Some d' -> valid s d' = true /\ slt d d'.
+Proof. exact next_sound. Qed.
+Print Assumptions C11_next_sound.
+
+(* next_dna is the successor in the list: no valid DNA is skipped, and None exactly at the end
+   (every nesting depth, every k, all four distinct x sorted modes) *)
+Theorem C11_next_exact : forall s, finite s = true -> wf s = true ->
+  forall d, valid s d = true -> next s d = succ_in sdna_eqb (all_valid s) d.
+Proof. exact next_exact. Qed.
+Print Assumptions C11_next_exact.
+
+(* iterating yields exactly the list (as many DNAs as the size, ending with no successor) *)
+Theorem C11_iter_exact : forall s, finite s = true -> wf s = true ->
+  forall fuel, length (all_valid s) <= fuel -> iter s fuel = all_valid s.
+Proof. exact iter_exact_fuel. Qed.
+Print Assumptions C11_iter_exact.
+
+(* the sweeping generator proposes the same sequence *)
+Theorem C11_sweeping_same : forall s fuel, sweeping s fuel None = iter s fuel.
+Proof. exact sweeping_same. Qed.
+Print Assumptions C11_sweeping_same.
